@@ -1401,3 +1401,99 @@ func TestModelSelfCheck(t *testing.T) {
 		}
 	}
 }
+
+// Every required header x every non-blank padding byte sequence x {before,
+// after, both} x {adjacent to the value, outside ordinary blanks} x {CRLF, LF}:
+// "surrounding blanks" are SP and HT only, so the padded value is a wrong value.
+func TestJunkPadding(t *testing.T) {
+	if !hx.Mine(1) {
+		return
+	}
+	c := dcfg{URL: "ws://example.org/", Req: respgen.Config{Protocols: []string{"chat"}}, Seed: 9}
+	n, asserted := 0, 0
+	for line := 0; line < 4; line++ {
+		for _, j := range respgen.JunkPads {
+			for where := 0; where < 3; where++ {
+				for _, inner := range []bool{true, false} {
+					for _, lf := range []bool{false, true} {
+						r := respgen.Valid()
+						r.Lines = append(r.Lines, respgen.Line{Name: "Sec-WebSocket-Protocol", Pre: " ", Value: "chat"})
+						l := &r.Lines[line]
+						if where != 1 {
+							if inner {
+								l.Pre += j
+							} else {
+								l.Pre = j + l.Pre
+							}
+						}
+						if where != 0 {
+							if inner {
+								l.Post = j + " "
+							} else {
+								l.Post = " " + j
+							}
+						}
+						if lf {
+							r.StatusLF, r.EndLF = true, true
+							for k := range r.Lines {
+								r.Lines[k].LF = true
+							}
+						}
+						n++
+						if respgen.Classify(r, c.Req).Verdict == respgen.MustFail {
+							asserted++
+						}
+						if !runFixed(t, &c, r, nil) {
+							return
+						}
+					}
+				}
+			}
+		}
+	}
+	if asserted < n*3/4 {
+		hx.Failf(t, nil, "harness: only %d of %d junk-padding cases are must-fail", asserted, n)
+	}
+	hx.EvalN(n)
+	hx.Part("junk padding: 4 headers x padding bytes x position x placement x line end", int64(n), true)
+}
+
+// Subprotocol values that are not, as a whole, one of the requested tokens:
+// lists with and without a requested token inside.
+func TestProtocolLists(t *testing.T) {
+	if !hx.Mine(2) {
+		return
+	}
+	c := dcfg{URL: "ws://example.org/", Req: respgen.Config{Protocols: []string{"chat", "superchat", "v1.json"}}, Seed: 10}
+	toks := []string{"chat", "superchat", "v1.json", "mqtt", "v2.unknown", "Chat", "cha", "chatx"}
+	seps := []string{", ", ",", " ", " , ", "\t", ";", "; q=", ",,", " ,"}
+	n := 0
+	try := func(v string) bool {
+		r := respgen.Valid()
+		r.Lines = append(r.Lines, respgen.Line{Name: "Sec-WebSocket-Protocol", Pre: " ", Value: v})
+		n++
+		cl := respgen.Classify(r, c.Req)
+		if want := c.Req.Requested(v); (cl.Verdict == respgen.MustSucceed) != want || (!want && cl.Verdict != respgen.MustFail) {
+			hx.Failf(t, v, "harness: protocol value %q classified %v", v, cl.Verdict)
+			return false
+		}
+		return runFixed(t, &c, r, nil)
+	}
+	for _, a := range toks {
+		if !try(a) || !try(a+",") || !try(","+a) || !try(a+";") {
+			return
+		}
+		for _, b := range toks {
+			for _, s := range seps {
+				if !try(a + s + b) {
+					return
+				}
+				if !try(a + s + b + s + "chat") {
+					return
+				}
+			}
+		}
+	}
+	hx.EvalN(n)
+	hx.Part("subprotocol values: single tokens and 2-/3-element lists over requested and foreign tokens x separators", int64(n), true)
+}
